@@ -59,6 +59,14 @@ Received(k, a) ==
   ELSE LET t == Trunc2(Val[a]) IN
        IF t >= Lo(k) /\ t <= Hi(k) THEN [exact |-> TRUE, v |-> t] ELSE [exact |-> FALSE, v |-> 0]
 
+\* huge numbers which the parameter kind can hold: they must arrive unchanged (the harness compares the received value,
+\* converted back, with the argument)
+HugeFits(k, a) ==
+  \/ k \in FloatKinds /\ a \in {"n3e9", "nm3e9", "n1e19", "nm1e19"} /\ k = "float64"
+  \/ a = "n3e9" /\ k \in {"int", "int64", "uint", "uint32", "uint64", "uintptr"}
+  \/ a = "nm3e9" /\ k \in {"int", "int64"}
+  \/ a = "n1e19" /\ k \in {"uint", "uint64", "uintptr"}
+
 \* does the argument fit the parameter: "yes" / "no" / "either"
 YN(b) == IF b THEN "yes" ELSE "no"
 Fits(k, a) ==
